@@ -38,6 +38,8 @@ def grid(tier: str, seed: int):
     ph = [(i + u) / m for i in range(m)]
     extra = [v for v in neighbours(0.5) + neighbours(0.25) + neighbours(0.75) if 0 <= v <= 1]
     extra += [math.nextafter(0.0, 1.0), math.nextafter(1.0, 0.0), 5e-324, 2.0**-1022, 2.0**-537]
+    # small degrees (tails of Gaussian / sigmoid terms): the formula must hold to RELATIVE accuracy there
+    extra += [2.0**-k for k in (12, 20, 30, 40, 53, 54, 60, 100)] + [1e-5, 3e-7, 1e-8, 1e-12, 1e-16, 1e-20]
     return dy, sorted(set(ph + extra))
 
 
@@ -100,6 +102,10 @@ def check(acc: Acc, name: str, xs: list[float], dyadic: bool) -> None:
         acc.cls("formula_exact" if dyadic else "formula_tolerance")
         if not ok:
             acc.violate("formula", {"hedge": name}, case, want, y, f"{name}({x}) = {y!r}, documented formula gives {want!r}")
+        elif 0.0 < x < 2.0**-10 and want > 1e-300 and abs(y - want) > 1e-14 * want:
+            # every documented formula is a product / square root of x near 0: a few ulps of the RESULT, not of 1
+            acc.violate("formula", {"hedge": name, "small": True}, case, want, y,
+                        f"{name}({x}) = {y!r}, documented formula gives {want!r} (relative error {abs(y - want) / want:.3g})")
         if not (0.0 <= y <= 1.0):
             acc.violate("range", {"hedge": name}, case, "[0,1]", y, f"{name}({x}) = {y!r} outside [0,1]")
         if prev is not None:
